@@ -182,6 +182,20 @@ def control_in_native_callback(forms):
     return False
 
 
+ERR_ATOM = re.compile(r"^(error|car|cdr|vector-ref|raise-error|f\d+|lp\d+)$")
+
+
+def error_in_native_callback(forms):
+    """Class predicate of K08f (syntactic): the callback handed to a native higher-order built-in can raise."""
+    for f in forms:
+        for t in _subterms(f):
+            if isinstance(t, list) and t[:1] == ["transduce"]:
+                atoms = _atoms(t[1:])
+                if any(ERR_ATOM.match(a) for a in atoms) or "a" in atoms:     # (+ 1 'a)
+                    return True
+    return False
+
+
 def classify(real, spec, impls, known, text=None):
     """Attribute a disagreement real ≠ S to an open finding, or return None (⇒ VIOLATION).
     impls = [faithful variant with equal? winders + stdlib encoding, variant with the stdlib encoding only]."""
@@ -198,6 +212,9 @@ def classify(real, spec, impls, known, text=None):
             forms = None
     # K08e / K08d: the mechanism is below the CEK level (nested interpreter instances of native built-ins; the
     # frame stack of the VM): class predicate on the program (+ S handled an error, for K08d)
+    if forms is not None and "K08f" in known and real["res"][0] == "err" and spec["res"][0] == "ok" and \
+            ev.get("handled", 0) > 0 and error_in_native_callback(forms):
+        return "K08f"
     if forms is not None and "K08e" in known and control_in_native_callback(forms):
         return "K08e"
     if forms is not None and "K08d" in known and ev.get("handled", 0) > 0 and uses_cweh(forms):
